@@ -312,22 +312,31 @@ class _Obj:
             return list(self.result(conf, no_color, palette).columns)
         return list(self.result(conf, no_color, palette))
 
-    def observe(self, conf, mode):
-        """the protocol reply of `render` for the real objects"""
+    def observe_raw(self, conf, mode):
+        """what the real objects print, as python strings (encoded into a protocol reply by `_reply`)"""
         from ak.hdoc import HCommand
         nc = mode in ("n", "m")
         if self.kind == "hcmd":
-            return "ok " + enc_str(HCommand()._make_help_text(self.func))
+            return (HCommand()._make_help_text(self.func),)
         res = self.result(conf, nc)
         if self.kind == "rec":
-            return "ok %s %s" % (enc_str(str(res)), enc_str(str(res.ch_text())))
+            return (str(res), str(res.ch_text()))
         if mode == "c":
-            return "ok " + enc_str(str(res))
+            return (str(res),)
         if mode == "n":
-            return "ok %s %s" % (enc_str(str(res)), enc_str(res.plain_text()))
+            return (str(res), res.plain_text())
         lines = [_line_str(l) for l in res]
-        whole = str(res)
-        return "ok %s %d%s" % (enc_str(whole), len(lines), "".join(" " + enc_str(l) for l in lines))
+        return (str(res), lines)
+
+    def observe(self, conf, mode):
+        """the protocol reply of `render` for the real objects"""
+        return _reply(self.observe_raw(conf, mode))
+
+
+def _reply(raw):
+    if len(raw) == 2 and isinstance(raw[1], list):
+        return "ok %s %d%s" % (enc_str(raw[0]), len(raw[1]), "".join(" " + enc_str(l) for l in raw[1]))
+    return "ok " + " ".join(enc_str(x) for x in raw)
 
 
 def _line_str(line):
@@ -432,8 +441,10 @@ def _reset():
         c._PALETTE_NO_COLOR = None
     _HELD.clear()
     _ADDR_CLASS.clear()
-    if len(_PINNED) > 250000:
+    _MISSES.clear()
+    if _NPINNED[0] > 3000000:
         _PINNED.clear()
+        _NPINNED[0] = 0
     for c in list(color._GSYNCED_PALETTES):
         if c is not color.GlobalPalette:
             del color._GSYNCED_PALETTES[c]
@@ -452,9 +463,20 @@ def _err(e):
 _PINNED = []          # fillers that keep uninteresting free blocks occupied (kept over the whole run)
 _HELD = {}            # palette class -> fillers sitting on addresses of dead palettes of that class
 _ADDR_CLASS = {}      # address -> class of the (coloured) palette that was created there in this case
+_MISSES = {}
 _SPY = None
 _OFF = None           # id(palette) - address of its memory block (GC head + dict pre-header), calibrated
 _POOL_FIRST = 48      # offset of the first block of a 16 KiB pymalloc pool
+
+
+_NPINNED = [0]
+
+
+def _pin(fillers):
+    """keeps the fillers for the rest of the run; as tuples of bytes, which the collector stops tracking"""
+    if fillers:
+        _NPINNED[0] += len(fillers)
+        _PINNED.append(tuple(fillers))
 
 
 def _filler():
@@ -476,7 +498,7 @@ def _calibrate():
             o = None
             b = _filler()
             votes[a - id(b)] = votes.get(a - id(b), 0) + 1
-            _PINNED.append(b)
+            _pin([b])
         best = max(votes, key=votes.get)
         _OFF = best if votes[best] >= 5 and 0 <= best <= 64 else -1
     return _OFF
@@ -492,6 +514,7 @@ def _about_to_create(cls):
     want = set(id(f) for f in held)
     keep = f = None
     n = 0
+    pin = []
     held.clear()
     # (no `for ... in range`: a range object and its iterator are palette-sized and would take the blocks)
     while n < 20000:
@@ -502,7 +525,8 @@ def _about_to_create(cls):
         elif keep is not None and (id(f) & 0x3FFF) == _POOL_FIRST:
             break                   # first block of an empty pool: everything before it is occupied now
         else:
-            _PINNED.append(f)
+            pin.append(f)
+    _pin(pin)
     f = None
     keep = None                     # freed last: handed out first
 
@@ -547,8 +571,8 @@ def _live_palette_ids(confs):
 
 def _capture(confs):
     """right after an operation that released palettes: occupy the addresses of the dead palettes of this
-    case (each address gets one chance), holding them for the next palette of the same class"""
-    if not _ADDR_CLASS or _calibrate() < 0:
+    case, holding them for the next palette of the same class"""
+    if not _ADDR_CLASS or _OFF is None or _OFF < 0:
         return
     live = _live_palette_ids(confs)
     held = set(id(f) + _OFF for lst in _HELD.values() for f in lst)
@@ -556,7 +580,8 @@ def _capture(confs):
     if not want:
         return
     # a fresh process has many free blocks of this size in front of the interesting ones
-    n, limit = 0, (700 if len(_PINNED) > 40000 else 12000)
+    n, limit = 0, (700 if _NPINNED[0] > 40000 else 400000)
+    pin = []
     while n < limit:
         n += 1
         f = bytes(15)
@@ -566,10 +591,13 @@ def _capture(confs):
             if not want:
                 break
         else:
-            _PINNED.append(f)
+            pin.append(f)
+    _pin(pin)
     f = None
-    for a in want:            # taken by something else meanwhile
-        del _ADDR_CLASS[a + _OFF]
+    for a in want:            # taken by something else meanwhile: a few more chances, then forget it
+        _MISSES[a] = _MISSES.get(a, 0) + 1
+        if _MISSES[a] >= 3:
+            del _ADDR_CLASS[a + _OFF]
 
 
 def _flat_descr(conf):
@@ -583,6 +611,7 @@ def _replay(case, before=None, after=None):
     _reset()
     confs, enums, objs = {}, {}, {}
     spy = _spy_conf_class()
+    _calibrate()
     failed = set()        # configurations whose constructor raised: what refers to them is skipped
     out = []
     for i, op in enumerate(case["ops"]):
@@ -623,9 +652,9 @@ def _replay(case, before=None, after=None):
                 cur = conf if conf is not None else color.get_global_colors_config()
                 if before is not None:
                     before(i, cur)
-                rep = objs[o].observe(conf, mode)
-                _capture(confs)
-                out.append(rep)
+                raw = objs[o].observe_raw(conf, mode)
+                _capture(confs)         # before anything else allocates
+                out.append(_reply(raw))
                 if after is not None:
                     after(i, cur)
                 conf = cur = None       # no hidden reference keeps a dropped configuration alive
